@@ -5,6 +5,7 @@
    every chain "RemoveEmpty before LargeUnion" from the tight to the annotation reading (B, CH). *)
 From MT Require Import Types Rewrite Hier Constants TypesFacts UnionFacts RewriteHier.
 From Coq Require Import Lia.
+Open Scope list_scope.
 
 (* ---------- Python == : the other direction of py_eqb_member_imp ---------- *)
 Section PyEqRev.
@@ -325,4 +326,404 @@ Proof.
       destruct W as [ND [Wr Wo]]; rewrite !fields_map_fst; (split; [exact ND|]);
       split; apply fields_map_wf; assumption.
 Qed.
+
+(* ---------- reading-independent rewriters ---------- *)
+Section AnyReading.
+Variable b : bool.
+Notation mem := (member b sub).
+
+(* RewriteConfigDict: Union[Dict[k, v1], ..., Dict[k', vn]] -> Dict[k, Union[v1, ..., vn]] *)
+Lemma rcd_union_mono ts v :
+  Forall wf_ty ts -> mem v (TUnion ts) = true -> mem v (rcd_union ts) = true.
+Proof.
+  intros W M. unfold rcd_union. destruct ts as [|t0 rest]; [exact M|].
+  destruct (forallb is_tdict (t0 :: rest) && forallb (fun e => py_eqb (dict_key t0) (dict_key e)) rest) eqn:C;
+    [|exact M].
+  apply andb_prop in C. destruct C as [C1 C2].
+  rewrite member_TUnion in M. apply existsb_exists in M. destruct M as [e [He Me]].
+  rewrite forallb_forall in C1. pose proof (C1 _ He) as De.
+  destruct e as [ | ? | ? | | ? | ? | ? | ek ev | ? ? | ? | ? | ? ? ? | ? | ? ? | ? ]; try discriminate De. clear De.
+  assert (Wt0 : wf_ty t0) by (inversion W; assumption).
+  assert (We : wf_ty (TDict ek ev)) by (rewrite Forall_forall in W; apply W; exact He).
+  assert (Kimp : forall x, mem x ek = true -> mem x (dict_key t0) = true).
+  { destruct He as [->|He]; [intros x Hx; exact Hx|].
+    rewrite forallb_forall in C2. specialize (C2 _ He). change (dict_key (TDict ek ev)) with ek in C2.
+    intros x Hx. destruct We as [We _].
+    exact (py_eqb_member_rev b sub _ _ x (dict_key_wf _ Wt0) We C2 Hx). }
+  assert (Vimp : forall x, mem x ev = true -> mem x (union_mk (map dict_val (t0 :: rest))) = true).
+  { intros x Hx. apply union_mk_complete.
+    - rewrite Forall_forall in *. intros y Hy. apply in_map_iff in Hy. destruct Hy as [e [<- He']].
+      apply dict_val_wf. apply W. exact He'.
+    - apply existsb_exists. exists ev. split; [|exact Hx].
+      apply in_map_iff. exists (TDict ek ev). split; [reflexivity|exact He]. }
+  cbn [member] in Me |- *.
+  destruct v; try discriminate Me; revert Me; apply forallb_imp; intros kv _ H;
+    apply andb_prop in H; destruct H; apply andb_true_intro; split; auto.
+Qed.
+
+(* RewriteMostSpecificCommonBase *)
+Lemma chains_In ts : forall fuel i t,
+  In t ts -> exists j, In (chain_of bt fuel j t) (chains bt fuel i ts).
+Proof.
+  induction ts as [|t0 r IH]; intros fuel i t H; [destruct H|]. cbn [chains]. destruct H as [<-|H].
+  - exists i. left. reflexivity.
+  - destruct (IH fuel (S i) t H) as [j Hj]. exists j. right. exact Hj.
+Qed.
+
+Lemma chain_of_anc fuel i t c v :
+  is_tcls t || is_td t = true -> In (KCls c) (chain_of bt fuel i t) -> mem v t = true ->
+  sub (class_of v) c = true.
+Proof.
+  intros K Hin M. destruct t; try discriminate K; cbn [chain_of] in Hin.
+  - apply in_map_iff in Hin. destruct Hin as [x [E Hx]]. injection E as ->.
+    cbn [member] in M. eapply subclass_trans; [exact Hwf|exact M|].
+    eapply compute_bases_nil_anc; eauto.
+  - apply in_app_or in Hin. destruct Hin as [Hin|[E|[]]]; [|discriminate E].
+    apply in_map_iff in Hin. destruct Hin as [x [E Hx]]. injection E as ->.
+    rewrite member_TTypedDict in M. destruct v; try discriminate M. cbn [class_of].
+    eapply compute_bases_nil_anc; eauto.
+Qed.
+
+Lemma msb_union_mono ts v : mem v (TUnion ts) = true -> mem v (msb_union bt ts) = true.
+Proof.
+  intros M. unfold msb_union. destruct (forallb (fun t => is_tcls t || is_td t) ts) eqn:F; [|exact M].
+  cbv zeta.
+  destruct (chains bt (S (List.length bt)) 0 ts) as [|c0 cs] eqn:Ech; [exact M|].
+  destruct (last (fold_left common_prefix cs c0) (KTd 0)) as [c|] eqn:L; [|exact M].
+  destruct (Nat.eqb (List.length (fold_left common_prefix cs c0)) 0) eqn:Len; [exact M|].
+  rewrite member_TUnion in M. apply existsb_exists in M. destruct M as [t [Ht Mt]].
+  destruct (chains_In ts (S (List.length bt)) 0 t Ht) as [j Hj]. rewrite Ech in Hj.
+  assert (HP : In (KCls c) (fold_left common_prefix cs c0)).
+  { rewrite <- L. apply last_In. intros E. rewrite E in Len. discriminate Len. }
+  apply fold_common_prefix_In in HP. destruct HP as [H0 Hcs].
+  assert (Hc : In (KCls c) (chain_of bt (S (List.length bt)) j t)).
+  { destruct Hj as [<-|Hj]; [exact H0|apply Hcs; exact Hj]. }
+  rewrite forallb_forall in F.
+  change (sub (class_of v) c = true). eapply chain_of_anc; eauto.
+Qed.
+
+(* a Tuple whose element types all equal (==, hence admit no more than) v0 is inside Tuple[v0, ...] *)
+Lemma tuple_homog v0 : wf_ty v0 -> forall es vals,
+  Forall wf_ty es -> forallb (fun e => isb e v0) es = true ->
+  mem (VTuple vals) (TTuple es) = true -> forallb (fun x => mem x v0) vals = true.
+Proof.
+  intros Wv. induction es as [|e es IH]; intros [|x vals] W F M; rewrite member_TTuple in M;
+    try discriminate M; [reflexivity|].
+  cbn [forallb] in F |- *. apply andb_prop in F. destruct F as [F1 F2].
+  apply andb_prop in M. destruct M as [M1 M2]. inversion W as [|? ? We Wes]; subst.
+  unfold isb in F1. apply andb_prop in F1. destruct F1 as [_ F1].
+  apply andb_true_intro; split.
+  - exact (py_eqb_member_imp b sub e v0 x We Wv F1 M1).
+  - apply IH; assumption.
+Qed.
+
+(* generic traversal helpers *)
+Lemma tuple_map_mono (f : ty -> ty) ts :
+  Forall (fun t => wf_ty t -> forall v, mem v t = true -> mem v (f t) = true) ts -> Forall wf_ty ts ->
+  forall es, mem (VTuple es) (TTuple ts) = true -> mem (VTuple es) (TTuple (map f ts)) = true.
+Proof.
+  induction ts as [|t ts IHts]; intros IH W [|e es] M; rewrite member_TTuple in *; try discriminate M;
+    [exact M|].
+  cbn [map]. apply andb_prop in M. destruct M as [M1 M2].
+  inversion IH as [|? ? IHt IHr]; subst. inversion W as [|? ? Wt Wr]; subst.
+  apply andb_true_intro; split; [apply IHt; assumption|]. apply (IHts IHr Wr es). exact M2.
+Qed.
+
+Lemma lookup_f_map (f : ty -> ty) s fs :
+  lookup_f s (map (fun fd => (fst fd, f (snd fd))) fs) = option_map f (lookup_f s fs).
+Proof.
+  induction fs as [|x r IH]; [reflexivity|]. cbn [map lookup_f fst snd].
+  destruct (String.eqb s (fst x)); [reflexivity|exact IH].
+Qed.
+
+Lemma td_map_mono (f : ty -> ty) rq op v :
+  wf_ty (TTypedDict rq op) ->
+  Forall (fun fd => wf_ty (snd fd) -> forall v, mem v (snd fd) = true -> mem v (f (snd fd)) = true) rq ->
+  Forall (fun fd => wf_ty (snd fd) -> forall v, mem v (snd fd) = true -> mem v (f (snd fd)) = true) op ->
+  mem v (TTypedDict rq op) = true ->
+  mem v (TTypedDict (map (fun fd => (fst fd, f (snd fd))) rq) (map (fun fd => (fst fd, f (snd fd))) op)) = true.
+Proof.
+  intros W IHr IHo M. apply wf_TTypedDict in W. destruct W as [_ [Wr Wo]].
+  rewrite member_TTypedDict in *. destruct v; try discriminate M.
+  apply andb_prop in M. destruct M as [MA MB]. apply andb_true_intro; split.
+  - revert MA. apply forallb_imp. intros [kk vv] _. cbn [fst snd]. destruct kk; try (intros; discriminate).
+    unfold field_ty. rewrite !lookup_f_map. intros H.
+    rewrite Forall_forall in IHr, IHo, Wr, Wo.
+    destruct (lookup_f s rq) as [ft|] eqn:Lr; cbn [option_map].
+    + pose proof (lookup_f_In _ _ _ Lr) as Hin. apply (IHr _ Hin); [apply (Wr _ Hin)|exact H].
+    + destruct (lookup_f s op) as [ft|] eqn:Lo; cbn [option_map]; [|discriminate H].
+      pose proof (lookup_f_In _ _ _ Lo) as Hin. apply (IHo _ Hin); [apply (Wo _ Hin)|exact H].
+  - rewrite forallb_forall in *. intros f' Hf'. apply in_map_iff in Hf'. destruct Hf' as [f0 [<- H0]].
+    cbn [fst]. apply MB. exact H0.
+Qed.
+
+Lemma map_union_mono (f : ty -> ty) ts v :
+  Forall wf_ty (map f ts) ->
+  Forall (fun e => wf_ty e -> forall v, mem v e = true -> mem v (f e) = true) ts -> Forall wf_ty ts ->
+  mem v (TUnion ts) = true -> mem v (union_mk (map f ts)) = true.
+Proof.
+  intros Wm IH W M. apply union_mk_complete; [exact Wm|].
+  rewrite member_TUnion in M. apply existsb_exists in M. destruct M as [e [He Me]].
+  apply existsb_exists. exists (f e). split; [apply in_map; exact He|].
+  rewrite Forall_forall in IH, W. apply IH; auto.
+Qed.
+
+End AnyReading.
+
+(* ---------- RewriteLargeUnion, annotation reading ---------- *)
+Lemma rlu_union_mono n ts v :
+  Forall wf_ty ts -> member true sub v (TUnion ts) = true -> member true sub v (rlu_union h n ts) = true.
+Proof.
+  intros W M. unfold rlu_union. destruct (Nat.leb _ _); [exact M|].
+  rewrite member_TUnion in M. apply existsb_exists in M. destruct M as [e [He Me]].
+  destruct (rlu_to_tuple ts) as [t|] eqn:RT.
+  - unfold rlu_to_tuple in RT. destruct (to_tuple_scan None ts) as [[v0|]|] eqn:S; try discriminate RT.
+    injection RT as <-. destruct (to_tuple_scan_spec _ _ _ S) as [_ [I2 I3]].
+    specialize (I2 _ eq_refl). rewrite Forall_forall in I2. destruct (I2 _ He) as [es [-> F]].
+    destruct v; try (cbn [member] in Me; discriminate Me).
+    change (forallb (fun x => member true sub x v0) es0 = true).
+    apply (tuple_homog true v0) with (es := es); [| |exact F|exact Me].
+    + apply (I3 W); [discriminate|reflexivity].
+    + rewrite Forall_forall in W. apply wf_TTuple. apply W. exact He.
+  - destruct ts as [|t0 r]; [reflexivity|]. destruct t0; try reflexivity.
+    destruct (forallb is_tcls _) eqn:Fc; [|reflexivity].
+    destruct (find _ _) as [a|] eqn:Fd; [|reflexivity].
+    apply find_some in Fd. destruct Fd as [_ Fd]. apply andb_prop in Fd. destruct Fd as [_ Fd].
+    rewrite forallb_forall in Fc, Fd. pose proof (Fc _ He) as Ce. destruct e; try discriminate Ce.
+    specialize (Fd _ He). cbn [cls_of] in Fd. cbn [member] in Me |- *.
+    eapply subclass_trans; eauto.
+Qed.
+
+(* ---------- RemoveEmptyContainers, tight reading ---------- *)
+Lemma rme_union_mono ts v :
+  Forall wf_ty ts ->
+  Forall (fun e => wf_ty e -> forall v, member false sub v e = true -> member false sub v (rw RRemoveEmpty e) = true) ts ->
+  member false sub v (TUnion ts) = true -> member false sub v (rw RRemoveEmpty (TUnion ts)) = true.
+Proof.
+  intros W IH M. rewrite rw_rme_union. destruct (filter (keep ts) ts) eqn:K; [exact M|]. rewrite <- K. clear K.
+  rewrite member_TUnion in M. apply existsb_exists in M. destruct M as [e [He Me]].
+  rewrite Forall_forall in W, IH.
+  apply union_mk_complete.
+  { rewrite Forall_forall. intros x Hx. apply in_map_iff in Hx. destruct Hx as [e' [<- He']].
+    apply filter_In in He'. destruct He' as [He' _]. apply rw_wf. apply W. exact He'. }
+  assert (Hkept : forall e', In e' ts -> keep ts e' = true -> member false sub v e' = true ->
+            existsb (member false sub v) (map (rw RRemoveEmpty) (filter (keep ts) ts)) = true).
+  { intros e' H1 H2 H3. apply existsb_exists. exists (rw RRemoveEmpty e'). split.
+    - apply in_map. apply filter_In. split; assumption.
+    - apply IH; auto. }
+  destruct (keep ts e) eqn:Ke; [apply (Hkept e); assumption|].
+  unfold keep in Ke. apply negb_false_iff in Ke. apply andb_prop in Ke. destruct Ke as [Em Sib].
+  unfold has_nonempty_sibling in Sib. apply existsb_exists in Sib. destruct Sib as [e' [He' Ce']].
+  apply andb_prop in Ce'. destruct Ce' as [Kd Ne]. apply Nat.eqb_eq in Kd. apply negb_true_iff in Ne.
+  apply (Hkept e' He').
+  - unfold keep. rewrite Ne. reflexivity.
+  - eapply empty_same_kind; eauto.
+Qed.
+
+(* ---------- (A) and (C) in one induction ---------- *)
+Theorem rw_mono b r :
+  (b = true -> r <> RRemoveEmpty) -> (b = false -> forall n, r <> RLargeUnion n) ->
+  forall t, wf_ty t -> forall v, member b sub v t = true -> member b sub v (rw r t) = true.
+Proof.
+  intros Hr1 Hr2.
+  induction t as [ | c | x IH | | x IH | x IH | x IH | k v0 IHk IHv | k v0 IHk IHv | xs IH | x IH
+                 | a1 a2 a3 IH1 IH2 IH3 | xs IH | rq op IHr IHo | s ] using ty_ind'; intros W v M;
+    try (destruct r; exact M).
+  - (* TList *) destruct r; try exact M; cbn [Rewrite.rw member wf_ty] in *;
+      (destruct v; try discriminate M; revert M; apply forallb_imp; intros e _; apply IH; exact W).
+  - (* TSet *) destruct r; try exact M; cbn [Rewrite.rw member wf_ty] in *;
+      (destruct v; try discriminate M; revert M; apply forallb_imp; intros e _; apply IH; exact W).
+  - (* TDict *) destruct r; try exact M; cbn [Rewrite.rw member wf_ty] in *; destruct W as [W1 W2];
+      (destruct v; try discriminate M; revert M; apply forallb_imp; intros kv _ H;
+       apply andb_prop in H; destruct H; apply andb_true_intro; split; [apply IHk|apply IHv|apply IHk|apply IHv]; assumption).
+  - (* TTuple *) destruct r; try exact M; cbn [Rewrite.rw];
+      (destruct v; try (cbn [member] in M; discriminate M));
+      apply wf_TTuple in W; apply tuple_map_mono; assumption.
+  - (* TTupleVar *) destruct r; try exact M; cbn [Rewrite.rw member wf_ty] in *;
+      (destruct v; try discriminate M; revert M; apply forallb_imp; intros e _; apply IH; exact W).
+  - (* TGenerator *) destruct r; try exact M.
+    destruct (rw_gen_cases a1 a2 a3) as [E|E]; rewrite E; exact M.
+  - (* TUnion *) pose proof W as W'. apply wf_TUnion in W'. destruct r; try exact M.
+    + destruct b; [exfalso; exact (Hr1 eq_refl eq_refl)|]. apply rme_union_mono; assumption.
+    + cbn [Rewrite.rw]. apply rcd_union_mono; assumption.
+    + destruct b; [|exfalso; exact (Hr2 eq_refl n eq_refl)]. cbn [Rewrite.rw]. apply rlu_union_mono; assumption.
+    + cbn [Rewrite.rw]. apply map_union_mono; try assumption.
+      rewrite Forall_forall in *. intros y Hy. apply in_map_iff in Hy. destruct Hy as [e [<- He]].
+      apply rw_wf. apply W'. exact He.
+    + cbn [Rewrite.rw]. apply msb_union_mono; assumption.
+  - (* TTypedDict *) destruct r; try exact M; cbn [Rewrite.rw]; apply td_map_mono; assumption.
+Qed.
+
+(* (A) annotation reading: every rewriter but RemoveEmptyContainers *)
+Corollary rw_mono_annot r t v :
+  r <> RRemoveEmpty -> wf_ty t ->
+  member true sub v t = true -> member true sub v (rw r t) = true.
+Proof. intros Hr W M. apply rw_mono; auto. intros E; discriminate E. Qed.
+
+(* (C) tight reading: every rewriter but RewriteLargeUnion *)
+Corollary rw_mono_tight r t v :
+  (forall n, r <> RLargeUnion n) -> wf_ty t ->
+  member false sub v t = true -> member false sub v (rw r t) = true.
+Proof. intros Hr W M. apply rw_mono; auto. intros E; discriminate E. Qed.
+
+(* (B) every rewriter: what the inferred (tight) type admitted, the rewritten annotation admits *)
+Corollary rw_mono_tight_annot r t v :
+  wf_ty t -> member false sub v t = true -> member true sub v (rw r t) = true.
+Proof.
+  intros W M. destruct (is_large_union r) eqn:L.
+  - apply rw_mono_annot; [intros E; subst r; discriminate L|exact W|].
+    apply member_any_mono. exact M.
+  - apply member_any_mono. apply rw_mono_tight; [|exact W|exact M].
+    intros n E. subst r. discriminate L.
+Qed.
+
+(* ---------- (CH) chains ---------- *)
+Notation rw_chain := (rw_chain h bt).
+
+Lemma rw_chain_app rs1 rs2 t : rw_chain (rs1 ++ rs2) t = rw_chain rs2 (rw_chain rs1 t).
+Proof. unfold Rewrite.rw_chain. apply fold_left_app. Qed.
+
+Lemma rw_chain_wf rs : forall t, wf_ty t -> wf_ty (rw_chain rs t).
+Proof.
+  induction rs as [|r rs IH]; intros t W; [exact W|].
+  change (wf_ty (rw_chain rs (rw r t))). apply IH. apply rw_wf. exact W.
+Qed.
+
+Lemma rw_chain_mono_tight rs : (forall n, ~ In (RLargeUnion n) rs) ->
+  forall t v, wf_ty t -> member false sub v t = true -> member false sub v (rw_chain rs t) = true.
+Proof.
+  induction rs as [|r rs IH]; intros Hn t v W M; [exact M|].
+  change (member false sub v (rw_chain rs (rw r t)) = true). apply IH.
+  - intros n Hin. apply (Hn n). right. exact Hin.
+  - apply rw_wf. exact W.
+  - apply rw_mono_tight; [|exact W|exact M]. intros n E. apply (Hn n). left. exact E.
+Qed.
+
+Lemma rw_chain_mono_annot rs : ~ In RRemoveEmpty rs ->
+  forall t v, wf_ty t -> member true sub v t = true -> member true sub v (rw_chain rs t) = true.
+Proof.
+  induction rs as [|r rs IH]; intros Hn t v W M; [exact M|].
+  change (member true sub v (rw_chain rs (rw r t)) = true). apply IH.
+  - intros Hin. apply Hn. right. exact Hin.
+  - apply rw_wf. exact W.
+  - apply rw_mono_annot; [|exact W|exact M]. intros E. apply Hn. left. exact E.
+Qed.
+
+Theorem rw_chain_mono rs1 rs2 t v :
+  (forall n, ~ In (RLargeUnion n) rs1) -> ~ In RRemoveEmpty rs2 -> wf_ty t ->
+  member false sub v t = true -> member true sub v (rw_chain (rs1 ++ rs2) t) = true.
+Proof.
+  intros H1 H2 W M. rewrite rw_chain_app. apply rw_chain_mono_annot; [exact H2|apply rw_chain_wf; exact W|].
+  apply member_any_mono. apply rw_chain_mono_tight; assumption.
+Qed.
+
+Lemma chain_ok_split rs : chain_ok rs = true ->
+  exists rs1 rs2, rs = rs1 ++ rs2 /\ (forall n, ~ In (RLargeUnion n) rs1) /\ ~ In RRemoveEmpty rs2.
+Proof.
+  induction rs as [|r rs IH]; cbn [chain_ok]; intros H.
+  - exists [], []. repeat split; intros; intros [].
+  - destruct (is_large_union r) eqn:L.
+    + exists [], (r :: rs). split; [reflexivity|]. split; [intros n []|].
+      intros [E|Hin]; [subst r; discriminate L|].
+      rewrite forallb_forall in H. specialize (H _ Hin). discriminate H.
+    + destruct (IH H) as [rs1 [rs2 [-> [H1 H2]]]]. exists (r :: rs1), rs2. split; [reflexivity|].
+      split; [|exact H2]. intros n [E|Hin]; [subst r; discriminate L|]. apply (H1 n). exact Hin.
+Qed.
+
+Theorem rw_chain_ok_mono rs t v :
+  chain_ok rs = true -> wf_ty t ->
+  member false sub v t = true -> member true sub v (rw_chain rs t) = true.
+Proof.
+  intros H W M. destruct (chain_ok_split rs H) as [rs1 [rs2 [-> [H1 H2]]]].
+  apply rw_chain_mono; assumption.
+Qed.
+
+(* the chain monkeytype/typing.py declares as DEFAULT_REWRITER (Gen/Constants.v is regenerated from the
+   source on every run): RemoveEmptyContainers, RewriteConfigDict | RewriteLargeUnion, RewriteGenerator *)
+Lemma default_chain_split rs : default_chain = Some rs ->
+  rs = [RRemoveEmpty; RConfigDict] ++ [RLargeUnion large_union_default_max; RGenerator].
+Proof. intros E. vm_compute in E. injection E as <-. reflexivity. Qed.
+
+Theorem default_chain_mono rs t v :
+  default_chain = Some rs -> wf_ty t ->
+  member false sub v t = true -> member true sub v (rw_chain rs t) = true.
+Proof.
+  intros E W M. rewrite (default_chain_split rs E). apply rw_chain_mono; try assumption.
+  - intros n [H|[H|[]]]; discriminate H.
+  - intros [H|[H|[]]]; discriminate H.
+Qed.
+
 End Mono.
+
+Print Assumptions py_eqb_member_rev.
+Print Assumptions empty_same_kind.
+Print Assumptions rw_wf.
+Print Assumptions rw_mono.
+Print Assumptions rw_mono_annot.
+Print Assumptions rw_mono_tight.
+Print Assumptions rw_mono_tight_annot.
+Print Assumptions rw_chain_mono.
+Print Assumptions rw_chain_ok_mono.
+Print Assumptions default_chain_mono.
+
+(* ---------- non-vacuity: a class table with multiple inheritance ---------- *)
+Local Open Scope N_scope.
+(* 16 A;  17 B(A);  18 M (a mixin);  19 C(B, M);  20 D(A) *)
+Definition ex_h : hierarchy :=
+  [ (0, [0]); (2, [2; 0]); (3, [3; 0]); (4, [4; 0]); (7, [7; 0]);
+    (16, [16; 0]); (17, [17; 16; 0]); (18, [18; 0]); (19, [19; 17; 16; 18; 0]); (20, [20; 16; 0]) ].
+Definition ex_bt : bases_table :=
+  [ (2, [0]); (3, [0]); (4, [0]); (7, [0]);
+    (16, [0]); (17, [16]); (18, [0]); (19, [17; 18]); (20, [16]) ].
+
+(* Union[List[Any], List[Union[C, B, D]]]  and the list [C(), D()] *)
+Definition ex_t : ty := TUnion [TList TAny; TList (TUnion [TCls 19; TCls 17; TCls 20])].
+Definition ex_v : value := VList [VAtom 19 0; VAtom 20 1].
+
+Example ex_hyps : wf_hier ex_h = true /\ bt_ok ex_h ex_bt = true /\ wf_ty ex_t.
+Proof. split; [vm_compute; reflexivity|]. split; [vm_compute; reflexivity|]. cbn. tauto. Qed.
+
+(* RemoveEmptyContainers really drops List[Any]; RewriteLargeUnion(2) really collapses Union[C, B, D]
+   to the base class A; the value is admitted before (tight reading) and after (both readings) *)
+Example ex_rw_mono_nonvacuous :
+  member false (subclass ex_h) ex_v ex_t = true
+  /\ rw ex_h ex_bt RRemoveEmpty ex_t = TList (TUnion [TCls 19; TCls 17; TCls 20])
+  /\ rw_chain ex_h ex_bt [RRemoveEmpty; RLargeUnion 2%nat] ex_t = TList (TCls 16)
+  /\ member false (subclass ex_h) ex_v (rw ex_h ex_bt RRemoveEmpty ex_t) = true
+  /\ member true (subclass ex_h) ex_v (rw_chain ex_h ex_bt [RRemoveEmpty; RLargeUnion 2%nat] ex_t) = true
+  /\ chain_ok [RRemoveEmpty; RLargeUnion 2%nat] = true.
+Proof. vm_compute. repeat split. Qed.
+
+(* RewriteMostSpecificCommonBase and RewriteConfigDict fire on this table too *)
+Example ex_common_base :
+  rw ex_h ex_bt RCommonBase (TUnion [TCls 17; TCls 20]) = TCls 16
+  /\ rw ex_h ex_bt RConfigDict (TUnion [TDict (TCls 3) (TCls 2); TDict (TCls 3) (TCls 17)])
+     = TDict (TCls 3) (TUnion [TCls 2; TCls 17]).
+Proof. vm_compute. split; reflexivity. Qed.
+
+(* the two excluded cases are really excluded (tests, by computation): RemoveEmptyContainers narrows
+   under the annotation reading, RewriteLargeUnion -> Any admits nothing under the tight reading *)
+Example ex_remove_empty_narrows_annot :
+  member true (subclass ex_h) (VList [VStr "x"]) (TUnion [TList TAny; TList (TCls 2)]) = true
+  /\ member true (subclass ex_h) (VList [VStr "x"])
+       (rw ex_h ex_bt RRemoveEmpty (TUnion [TList TAny; TList (TCls 2)])) = false.
+Proof. vm_compute. split; reflexivity. Qed.
+
+Example ex_large_union_any_tight :
+  member false (subclass ex_h) (VAtom 2 0) (TUnion [TCls 2; TCls 3; TList (TCls 2)]) = true
+  /\ rw ex_h ex_bt (RLargeUnion 2%nat) (TUnion [TCls 2; TCls 3; TList (TCls 2)]) = TAny
+  /\ member false (subclass ex_h) (VAtom 2 0)
+       (rw ex_h ex_bt (RLargeUnion 2%nat) (TUnion [TCls 2; TCls 3; TList (TCls 2)])) = false.
+Proof. vm_compute. repeat split. Qed.
+
+(* wf_hier is not superfluous: on a table whose MROs are not closed (20's MRO omits its base's base 16)
+   RewriteLargeUnion's common base loses a value *)
+Definition ex_bad_h : hierarchy :=
+  [ (16, [16; 0]); (17, [17; 16; 0]); (20, [20; 17; 0]); (21, [21; 16; 0]); (22, [22; 16; 0]) ].
+Example ex_wf_hier_needed :
+  wf_hier ex_bad_h = false
+  /\ member true (subclass ex_bad_h) (VAtom 20 0) (TUnion [TCls 17; TCls 21; TCls 22]) = true
+  /\ rw ex_bad_h [] (RLargeUnion 2%nat) (TUnion [TCls 17; TCls 21; TCls 22]) = TCls 16
+  /\ member true (subclass ex_bad_h) (VAtom 20 0)
+       (rw ex_bad_h [] (RLargeUnion 2%nat) (TUnion [TCls 17; TCls 21; TCls 22])) = false.
+Proof. vm_compute. repeat split. Qed.
